@@ -2248,6 +2248,7 @@ Proof.
 Qed.
 
 (* ================================================================== identical text, arbitrary priors *)
+Definition ordered (a : attr) : Prop := a_start a <= a_end a.
 Definition le2R (a b : attr) : Prop := le2 a b = true.
 
 Lemma insert_ssorted x : forall l, StronglySorted le2R l -> StronglySorted le2R (insert_by le2 x l).
@@ -2398,12 +2399,23 @@ Proof.
     pose proof (to_lines_total c (a0 :: t0) Hv) as Ht. rewrite Hrhs in Ht.
     destruct (map_res (line_author c S) (lines_of c)) as [las|] eqn:Em; [|congruence].
     rewrite lines_all_human; [reflexivity|].
-    rewrite <- Hlines in Em. eapply map_res_Forall; [|exact Em].
+    eapply map_res_Forall; [|exact Hlines].
     intros r Hr y Hy. pose proof (lines_of_good c Hc r Hr) as Hg.
     destruct (line_author_filter c [] r Hc Hg) as [empty [E1 _]]. rewrite E1 in Hy. cbn in Hy.
     inversion Hy. reflexivity.
-  - rewrite <- EE. rewrite HsE. rewrite Hlines.
+  - rewrite HsE, Hlines. unfold c at 1. cbv iota.
     destruct attrs as [|a0 t0]; [|reflexivity].
     (* attrs = [] is impossible here: E would be empty *)
     exfalso. unfold S, sort2 in EE. cbn in EE. discriminate.
+Qed.
+
+(* without start <= end the statement is false: a prior with start > end counts as a candidate of a
+   whitespace-only line it straddles, and is dropped by the update *)
+Lemma identity_inverted_refuted :
+  exists old attrs author ts,
+    valid_utf8 old = true /\
+    res_lines_eqb (update_lines old attrs author ts (mkFacts [(DEq, old)] [] [])) (to_lines attrs old) = false.
+Proof.
+  exists [32; 32; 10], [mkAttr 2 1 [97; 105; 95; 49] 5], [97; 105; 95; 57], 100.
+  split; vm_compute; reflexivity.
 Qed.
